@@ -508,3 +508,20 @@ fn replay(_sub: &str, case: &Json) -> Option<CaseResult> {
     let c: Case = serde_json::from_value(case.get("case")?.clone()).ok()?;
     Some(check_case(&c))
 }
+
+/// libFuzzer entry: raw bytes through the four ways of iterating (mode % 4 == 0) or a generated case.
+pub fn fuzz(f: &mut FuzzIn) -> Option<CaseResult> {
+    let c = match f.mode % 4 {
+        0 => {
+            let (q, input) = f.raw_q_input();
+            if input.len() > 400 {
+                return None;
+            }
+            Case::Iter { input: input.to_vec(), q }
+        }
+        1 => f.draw(&g_seq())?,
+        2 => f.draw(&g_triv())?,
+        _ => f.draw(&g_hist())?,
+    };
+    Some(check_case(&c))
+}
